@@ -61,6 +61,14 @@ def z3bool(b):
 
 def truthy(v: Val):
     """Python truthiness: a python bool when known, else a z3 Bool."""
+    if v.is_py and is_carrier(v.py):
+        if v.py[0] == "iterinfo":
+            info = v.py[1]
+            if info.kind == "concrete":
+                return bool(info.items)
+            if info.kind == "indexed":
+                return info.n != 0
+        raise Unsupported("truthiness of an iterator / generator expression")
     if v.is_py:
         if isinstance(v.py, (list, tuple, dict, set, frozenset)) or not _has_val(v.py):
             if v.ty is PYOBJ and not isinstance(v.py, (list, tuple, dict, set, frozenset, range)):
@@ -86,6 +94,8 @@ def truthy(v: Val):
     if isinstance(t, T.Opt):
         s = t.sort()
         inner = truthy(Val(t.inner, s.val(v.term)))
+        if inner is None:
+            raise Unsupported("truthiness of an optional object outside Executor.truth")
         return z3.And(s.is_some(v.term), z3bool(inner))
     if isinstance(t, T.Tuple):
         return len(t.items) != 0
@@ -95,7 +105,10 @@ def truthy(v: Val):
         s = t.sort()
         parts = []
         for i, a in enumerate(t.alts):
-            parts.append(z3.And(getattr(s, f"is_alt{i}")(v.term), z3bool(truthy(Val(a, getattr(s, f"v{i}")(v.term))))))
+            ti = truthy(Val(a, getattr(s, f"v{i}")(v.term)))
+            if ti is None:
+                raise Unsupported("truthiness of a union with an object alternative outside Executor.truth")
+            parts.append(z3.And(getattr(s, f"is_alt{i}")(v.term), z3bool(ti)))
         return z3.Or(*parts)
     raise Unsupported(f"truthiness of {t}")
 
@@ -238,6 +251,8 @@ def str_format(fmt: Val, arg: Val, node=None) -> Val:
 
 def equal(a: Val, b: Val):
     """Python == ; python bool or z3 Bool."""
+    if (a.is_py and is_carrier(a.py)) or (b.is_py and is_carrier(b.py)):
+        raise Unsupported("comparison of an iterator / dict view (wrap it in list(..) / set(..))")
     if is_const(a) and is_const(b):
         return a.py == b.py
     if a.ty is PYOBJ or b.ty is PYOBJ:
@@ -361,6 +376,8 @@ def is_(a: Val, b: Val, node=None):
 
 
 def contains(c: Val, x: Val, node=None):
+    if c.is_py and is_carrier(c.py):
+        raise Unsupported("`in` on an iterator / generator expression", node)
     if is_const(c) and is_const(x):
         return x.py in c.py
     if c.is_py and isinstance(c.py, (list, tuple, set, frozenset, dict, range)):
@@ -387,6 +404,8 @@ def contains(c: Val, x: Val, node=None):
 
 
 def length(v: Val):
+    if v.is_py and is_carrier(v.py):
+        raise Unsupported("len() of an iterator / dict view outside builtins.len")
     if v.is_py and isinstance(v.py, (list, tuple, dict, set, frozenset, str, range)):
         return Val.const(len(v.py))
     t = v.ty
